@@ -324,6 +324,8 @@ func checkC14(c *ctx) {
 	cff := vc.BuildCff(work)
 	dir := newScratch(work, "m")
 	o := prog.DefaultOpts()
+	// the single-defect mutations rewrite the abstract flow: keep every function and type in the program's own package
+	o.ImportPct, o.BarePct = 0, 0
 	o.InstrPct = 0
 	o.Spellings = []int{prog.SpLit, prog.SpLit, prog.SpTop, prog.SpMethod}
 	var cases []*c14case
@@ -342,10 +344,23 @@ func checkC14(c *ctx) {
 		p2.Flow.OptOrder = r.Perm(len(p.Flow.OptOrder))
 		writeFile(filepath.Join(dir, "w/"+p2.Name, "p.go"), p2.Source())
 		cases = append(cases, &c14case{Rel: "w/" + p2.Name, Kind: "well-formed-reordered", Expect: "accept"})
-		for _, m := range mutateFlow(p, r) {
+		for mi, m := range mutateFlow(p, r) {
 			rel := "x/" + m.P.Name
-			writeFile(filepath.Join(dir, rel, "p.go"), m.P.Source())
-			cases = append(cases, &c14case{Rel: rel, Kind: m.Kind, Expect: "reject"})
+			// every fifth case lives in an in-package test file (p_test.go ->
+			// p_gen_test.go): the loader reaches those only through the package's
+			// test variant
+			file := "p.go"
+			if (i+mi)%5 == 0 {
+				file = "p_test.go"
+			}
+			writeFile(filepath.Join(dir, rel, file), m.P.Source())
+			cases = append(cases, &c14case{Rel: rel, File: file, Kind: m.Kind, Expect: "reject"})
+		}
+		if i%4 == 0 {
+			p3 := cloneProg(p)
+			p3.Name = p.Name + "t"
+			writeFile(filepath.Join(dir, "w/"+p3.Name, "p_test.go"), p3.Source())
+			cases = append(cases, &c14case{Rel: "w/" + p3.Name, File: "p_test.go", Kind: "well-formed-in-test-file", Expect: "accept"})
 		}
 	}
 	tab := assignableTable()
